@@ -407,11 +407,14 @@ pub struct BrokerCfg {
     pub message_on_get: bool,
     /// push one delivery right after each ConsumeOk
     pub deliver_on_consume: bool,
+    /// what a Basic.Cancel is answered with: 0 CancelOk, 1 Connection.Close(320) instead,
+    /// 2 Channel.Close(406) of that channel instead
+    pub on_cancel: u8,
 }
 
 impl Default for BrokerCfg {
     fn default() -> Self {
-        BrokerCfg { mechanisms: "PLAIN EXTERNAL".into(), locales: "en_US".into(), tune: (2047, 131072, 0), auto_reply: true, message_on_get: false, deliver_on_consume: false }
+        BrokerCfg { mechanisms: "PLAIN EXTERNAL".into(), locales: "en_US".into(), tune: (2047, 131072, 0), auto_reply: true, message_on_get: false, deliver_on_consume: false, on_cancel: 0 }
     }
 }
 
@@ -476,6 +479,14 @@ impl Broker {
                             AMQPClass::Connection(connection::AMQPMethod::StartOk(_)) => Some(tune_frame(cfg.tune.0, cfg.tune.1, cfg.tune.2)),
                             AMQPClass::Connection(connection::AMQPMethod::TuneOk(_)) => None,
                             AMQPClass::Connection(connection::AMQPMethod::Open(_)) => Some(open_ok_frame()),
+                            AMQPClass::Basic(basic::AMQPMethod::Cancel(_)) if cfg.on_cancel == 1 => Some(AMQPFrame::Method(
+                                0,
+                                AMQPClass::Connection(connection::AMQPMethod::Close(connection::Close { reply_code: 320, reply_text: "bye".into(), class_id: 0, method_id: 0 })),
+                            )),
+                            AMQPClass::Basic(basic::AMQPMethod::Cancel(_)) if cfg.on_cancel == 2 => Some(AMQPFrame::Method(
+                                *ch,
+                                AMQPClass::Channel(channel::AMQPMethod::Close(channel::Close { reply_code: 406, reply_text: "gone".into(), class_id: 0, method_id: 0 })),
+                            )),
                             other if cfg.auto_reply => {
                                 seq += 1;
                                 default_reply(*ch, other, seq)
